@@ -482,6 +482,8 @@ def call_solver(inst, m, kktsolver=None, options=None, use_options_kw=True, extr
     b = m['b'] if inst['p'] > 0 or inst.get('pass_empty_A') else None
     if kktsolver is not None:
         kw['kktsolver'] = kktsolver
+    if inst.get('dims_none') and k in ('conelp', 'coneqp', 'cpl', 'cp') and not (inst['dims']['q'] or inst['dims']['s']):
+        m = dict(m, dims=None)          # only componentwise inequalities: dims may be omitted
     if k == 'conelp':
         return solvers.conelp(m['c'], m['G'], m['h'], m['dims'], A, b,
                               primalstart=m.get('primalstart'), dualstart=m.get('dualstart'), **kw)
